@@ -83,6 +83,15 @@ namespace sqf
                 return sstream.str();
             }
 
+            void contained(std::vector<std::shared_ptr<sqf::runtime::data>>& out) const override
+            {
+                for (auto& it : m_map)
+                {
+                    if (!it.first.empty()) { out.push_back(it.first.data()); }
+                    if (!it.second.empty()) { out.push_back(it.second.data()); }
+                }
+            }
+
             std::unordered_map<sqf::runtime::value, sqf::runtime::value>& map() { return m_map; }
         };
     }
